@@ -3478,7 +3478,15 @@ func ruleORD13(w *World, r *Report) {
 			// a flush whose error nobody looks at does not count
 			checkedFlush := func(x ssa.Instruction) bool {
 				c, ok := x.(*ssa.Call)
-				return ok && callsTo(flush, sync)(x) && len(failureEdges(fn, c)) > 0
+				if !ok || len(failureEdges(fn, c)) == 0 {
+					return false
+				}
+				if callsTo(flush, sync)(x) {
+					return true
+				}
+				// a helper of the module that cannot return without having flushed, and hands the error on
+				g := c.Call.StaticCallee()
+				return g != nil && len(g.Blocks) > 0 && g.Signature.Results().Len() == 1 && isErrorType(g.Signature.Results().At(0).Type()) && cannotReturnWithout(g, callsTo(flush, sync))
 			}
 			found, wit := (pathQuery{fn: fn, target: func(x ssa.Instruction) bool { return x == dI }, avoid: checkedFlush}).find(posOf(findInstrs(fn, callsTo(jw))[0]))
 			if !found {
@@ -3580,12 +3588,60 @@ func ruleJRN6(w *World, r *Report) {
 			continue
 		}
 		n++
-		ok, wit := precedesWithSuccess(fn, callsTo(v.Obj), callsTo(jw))
-		r.Cond(ok && len(findInstrs(fn, callsTo(v.Obj))) > 0, "JRN-6", "Engine.VCreate:"+v.Obj.Name()+":before-the-journal-write", w.Pos(fi.Decl.Pos()), "the validator has succeeded on every path to the journal write", "Engine.VCreate journals VCREATE without hnsw."+v.Obj.Name()+" having accepted the request: a create that hnsw.New then refuses stays in the log, registers the name on replay, a later valid create of the same name is skipped as a duplicate — and the index with all its vectors is gone after a clean restart", w.witness(wit)...)
+		// the validator itself, or a function that cannot return without having asked it (and looks at the answer)
+		direct := callsTo(v.Obj)
+		wraps := map[*ssa.Function]bool{}
+		asks := func(in ssa.Instruction) bool {
+			if direct(in) {
+				return true
+			}
+			c, ok := in.(*ssa.Call)
+			if !ok {
+				return false
+			}
+			g := c.Call.StaticCallee()
+			if g == nil || len(g.Blocks) == 0 || g.Signature.Results().Len() != 1 || !isErrorType(g.Signature.Results().At(0).Type()) {
+				return false
+			}
+			if known, seen := wraps[g]; seen {
+				return known
+			}
+			isWrap := cannotReturnWithout(g, direct)
+			wraps[g] = isWrap
+			return isWrap
+		}
+		ok, wit := precedesWithSuccess(fn, asks, callsTo(jw))
+		r.Cond(ok && len(findInstrs(fn, asks)) > 0, "JRN-6", "Engine.VCreate:"+v.Obj.Name()+":before-the-journal-write", w.Pos(fi.Decl.Pos()), "the validator has succeeded on every path to the journal write", "Engine.VCreate journals VCREATE without hnsw."+v.Obj.Name()+" having accepted the request: a create that hnsw.New then refuses stays in the log, registers the name on replay, a later valid create of the same name is skipped as a duplicate — and the index with all its vectors is gone after a clean restart", w.witness(wit)...)
 	}
 	if n == 0 {
 		r.Bad("JRN-6", "Engine.VCreate:validators", w.Pos(fi.Decl.Pos()), "pkg/core/hnsw exports no Validate… function: VCreate cannot refuse what hnsw.New refuses before it journals")
 	}
+}
+
+// cannotReturnWithout: g is a thin wrapper of an error-returning step — it calls it, looks at (or returns) its answer, and
+// has no way to a return that goes round the call, other than over the failure edge of another call.
+func cannotReturnWithout(g *ssa.Function, direct func(ssa.Instruction) bool) bool {
+	inner := findInstrs(g, direct)
+	if len(inner) == 0 {
+		return false
+	}
+	for _, ic := range inner {
+		c, ok := ic.(*ssa.Call)
+		if !ok {
+			return false
+		}
+		if refs := c.Referrers(); refs == nil || len(*refs) == 0 {
+			return false // the answer is thrown away
+		}
+	}
+	failed := map[edgeKey]bool{}
+	for _, oc := range findInstrs(g, func(x ssa.Instruction) bool { _, ok := x.(*ssa.Call); return ok }) {
+		for e := range failureEdges(g, oc.(*ssa.Call)) {
+			failed[e] = true
+		}
+	}
+	skip, _ := (pathQuery{fn: g, target: func(x ssa.Instruction) bool { _, ok := x.(*ssa.Return); return ok }, avoid: direct, blocked: failed}).find(entryPos(g))
+	return !skip
 }
 
 // sameLen: a and b are both len(x) (or both cap(x)) of the same slice value — a length does not change between two
@@ -3896,6 +3952,56 @@ func ruleORD14(w *World, r *Report) {
 			return false
 		}
 		selI := ssa.Instruction(sel)
+		// the same test made by a helper of the package: a function that only polls the closed channel, and whose answer
+		// decides a branch one side of which cannot reach the enqueue
+		inline := pre
+		pre = func(x ssa.Instruction) bool {
+			if inline(x) {
+				return true
+			}
+			c, ok := x.(*ssa.Call)
+			if !ok {
+				return false
+			}
+			g := c.Call.StaticCallee()
+			if g == nil || g.Pkg != fn.Pkg || len(g.Blocks) == 0 {
+				return false
+			}
+			polls := false
+			for _, gi := range findInstrs(g, func(y ssa.Instruction) bool { _, ok := y.(*ssa.Select); return ok }) {
+				s2 := gi.(*ssa.Select)
+				for _, st := range s2.States {
+					if st.Dir == types.SendOnly {
+						return false
+					}
+					if !s2.Blocking && isClosedRecv(st) {
+						polls = true
+					}
+				}
+			}
+			if !polls {
+				return false
+			}
+			for _, ref := range *c.Referrers() {
+				v, _ := ref.(ssa.Value)
+				if u, ok := ref.(*ssa.UnOp); ok && u.Op == token.NOT && u.Referrers() != nil {
+					for _, r2 := range *u.Referrers() {
+						ref = r2
+					}
+				}
+				_ = v
+				iff, ok := ref.(*ssa.If)
+				if !ok {
+					continue
+				}
+				for _, succ := range iff.Block().Succs {
+					if reach, _ := (pathQuery{fn: fn, target: func(y ssa.Instruction) bool { return y == selI }}).find(ipos{succ, -1}); !reach {
+						return true
+					}
+				}
+			}
+			return false
+		}
 		found, wit := (pathQuery{fn: fn, target: func(x ssa.Instruction) bool { return x == selI }, avoid: pre}).find(entryPos(fn))
 		r.Cond(!found, "ORD-14", fmt.Sprintf("LazyAOFWriter.Write:enqueue#%d:closed-tested-first", n), w.Pos(sel.Pos()), "a non-blocking test of the closed channel precedes the enqueueing select", "LazyAOFWriter.Write decides between 'closed' and 'enqueue' in one select: after Close both cases are ready (the closed channel is closed, the queue has room) and select picks at random — about half of the writes issued after Engine.Close are acknowledged, change memory and are in no log", w.witness(wit)...)
 	}
@@ -3944,20 +4050,32 @@ func ruleLCK10(w *World, r *Report) {
 			}
 			return calleeObj(&c.Call) == delMeta
 		}
-		dels := findInstrs(fn, isDel)
-		ok := len(dels) >= 2 && len(findInstrs(fn, isShardLock("Lock"))) > 0
+		// the deletes may sit in a function literal of VDelete (lock, defer unlock, delete): each function that holds a
+		// delete must take the lock itself, before the delete
+		nDels := 0
+		ok := true
 		var wit []ssa.Instruction
-		for _, d := range dels {
-			dI := d
-			// reached only with the lock taken and not yet released
-			if f, wt := (pathQuery{fn: fn, target: func(in ssa.Instruction) bool { return in == dI }, avoid: isShardLock("Lock")}).find(entryPos(fn)); f {
-				ok, wit = false, wt
+		for _, f := range append([]*ssa.Function{fn}, closuresOf(fn)...) {
+			dels := findInstrs(f, isDel)
+			nDels += len(dels)
+			if len(dels) > 0 && len(findInstrs(f, isShardLock("Lock"))) == 0 {
+				ok = false
 			}
-			for _, u := range findInstrs(fn, isShardLock("Unlock")) {
-				if f, wt := (pathQuery{fn: fn, target: func(in ssa.Instruction) bool { return in == dI }, avoid: isShardLock("Lock")}).find(posOf(u)); f {
+			for _, d := range dels {
+				dI := d
+				// reached only with the lock taken and not yet released
+				if fd, wt := (pathQuery{fn: f, target: func(in ssa.Instruction) bool { return in == dI }, avoid: isShardLock("Lock")}).find(entryPos(f)); fd {
 					ok, wit = false, wt
 				}
+				for _, u := range findInstrs(f, isShardLock("Unlock")) {
+					if fd, wt := (pathQuery{fn: f, target: func(in ssa.Instruction) bool { return in == dI }, avoid: isShardLock("Lock")}).find(posOf(u)); fd {
+						ok, wit = false, wt
+					}
+				}
 			}
+		}
+		if nDels < 2 {
+			ok = false
 		}
 		r.Cond(ok, "LCK-10", "Engine.VDelete:deletes-under-the-metadata-shard-lock", w.Pos(fi.Decl.Pos()), "the index delete and the metadata delete are reached only with the node's metadata lock held", "Engine.VDelete removes the node or its metadata without holding the node's metadata shard lock: a VSetMetadata or VReinforce that looked the node up just before writes its merged metadata back afterwards — metadata, inverted-index and text-index entries for a node that no longer exists; filters and text search return an id that VGet reports missing, BM25 statistics count a deleted document", w.witness(wit)...)
 	} else {
@@ -4149,51 +4267,10 @@ func ruleGRDlogarg(w *World, r *Report) {
 // WEB-11: the profiling handlers are behind the admin prefixes.
 // ---------------------------------------------------------------------------------------------------------------
 func ruleWEB11(w *World, r *Report) {
-	r.Doc("WEB-11", "every route whose handler comes from net/http/pprof (process arguments, heap, goroutines) matches one of the path prefixes that the auth middleware tests in the same `||` chain as /system/ — the prefixes that require an admin token", 3)
-	mwf := w.Func("internal/server", "Server.authMiddleware")
-	if mwf == nil {
-		r.Und("WEB-11", "anchor:Server.authMiddleware", "", "anchor lost")
-		return
-	}
-	// the admin prefixes: constants of the HasPrefix calls in the short-circuit chain that starts at "/system/"
-	var admin []string
-	for _, f := range append([]*ssa.Function{w.SSAFunc(mwf.Obj)}, closuresOf(w.SSAFunc(mwf.Obj))...) {
-		for _, b := range f.Blocks {
-			for _, in := range b.Instrs {
-				c, ok := in.(*ssa.Call)
-				if !ok || !isCallTo(c, "strings", "HasPrefix") {
-					continue
-				}
-				if s, ok := constString(c.Call.Args[1]); !ok || s != "/system/" {
-					continue
-				}
-				admin = append(admin, "/system/")
-				// follow the false edges of the chain
-				cur := b
-				for hop := 0; hop < 8; hop++ {
-					if len(cur.Succs) != 2 {
-						break
-					}
-					nxt := cur.Succs[1]
-					found := ""
-					for _, x := range nxt.Instrs {
-						if c2, ok := x.(*ssa.Call); ok && isCallTo(c2, "strings", "HasPrefix") {
-							if s2, ok := constString(c2.Call.Args[1]); ok {
-								found = s2
-							}
-						}
-					}
-					if found == "" || len(nxt.Preds) != 1 {
-						break
-					}
-					admin = append(admin, found)
-					cur = nxt
-				}
-			}
-		}
-	}
-	if len(admin) == 0 {
-		r.Und("WEB-11", "Server.authMiddleware:admin-prefixes", w.Pos(mwf.Decl.Pos()), "the `/system/` prefix test of the middleware was not found (shape not recognised)")
+	r.Doc("WEB-11", "for every route whose handler comes from net/http/pprof (process arguments, heap, goroutines) the weakest role the auth middleware's decision procedure can settle for — evaluated on the decision paths extracted from its SSA, as for WEB-3 — is admin", 3)
+	paths, _ := w.extractPolicy(r)
+	if paths == nil {
+		r.Und("WEB-11", "Server.authMiddleware:policy", "", "the decision procedure of the middleware could not be extracted")
 		return
 	}
 	n := 0
@@ -4216,17 +4293,16 @@ func ruleWEB11(w *World, r *Report) {
 				if !ok {
 					continue
 				}
+				methods := []string{"GET", "POST", "PUT", "DELETE"}
 				if i := strings.Index(pat, " "); i >= 0 {
-					pat = pat[i+1:]
+					methods, pat = []string{pat[:i]}, pat[i+1:]
 				}
 				n++
-				covered := false
-				for _, p := range admin {
-					if strings.HasPrefix(pat, p) {
-						covered = true
-					}
+				worst, why := weakestRole(paths, methods, pat)
+				if why != "" {
+					why = " (when the caller chooses the rest of the path so that: " + why + ")"
 				}
-				r.Cond(covered, "WEB-11", "route:"+pat+":admin-only", w.Pos(c.Pos()), "matches an admin prefix of the middleware ("+strings.Join(admin, ", ")+")", "the profiling route "+pat+" is outside the prefixes the middleware reserves for admin tokens ("+strings.Join(admin, ", ")+"): a read-only token gets the process arguments (where --auth-token=<root> is passed), heap and goroutine dumps")
+				r.Cond(worst == "admin", "WEB-11", "route:"+pat+":admin-only", w.Pos(c.Pos()), "the middleware requires the admin role", "the profiling route "+pat+" is served to a "+worst+" token"+why+": it gets the process arguments (where --auth-token=<root> is passed), heap and goroutine dumps")
 			}
 		}
 	}
